@@ -52,6 +52,8 @@ package internal
 //@   requires implies(inDom(c.watchers, key), c.watchers[key] != nil && c.watchers[key].values != nil)
 //@   call OnAdd#0: assert inDom(watcher.values, arg_kv.Key) && watcher.values[arg_kv.Key] == arg_kv.Val && arg_kv.Key == string(ev.Kv.Key) && arg_kv.Val == string(ev.Kv.Value)
 //@   call OnDelete#0: assert !inDom(watcher.values, arg_kv.Key) && arg_kv.Key == string(ev.Kv.Key)
+//@   call OnAdd#*: assert fresh(arrayOf(listeners))
+//@   call OnDelete#*: assert fresh(arrayOf(listeners))
 //@   loop 0: modifies mapof(watcher.values), lsnState
 //@   loop 0: invariant watcher != nil && watcher.values != nil
 //@   loop 1: modifies lsnState
@@ -67,6 +69,9 @@ package internal
 //@   ensures  implies(old(inDom(c.watchers, key)), forall(i.(int), implies(0 <= i && i < len(kvs), inDom(c.watchers[key].values, kvs[i].Key))))
 //@   call OnAdd#0: assert addKeys[arg_kv.Key] && arg_kv.Val == c.watchers[key].values[arg_kv.Key]
 //@   call OnDelete#0: assert remKeys[arg_kv.Key]
+// the listeners notified outside the lock are a private snapshot: Unmonitor/addListener edit watcher.listeners in place
+//@   call OnAdd#*: assert fresh(arrayOf(listeners))
+//@   call OnDelete#*: assert fresh(arrayOf(listeners))
 //@   loop 0: modifies mapof(newVals)
 //@   loop 0: invariant forall(i.(int), implies(0 <= i && i < idx, inDom(newVals, kvs[i].Key)))
 //@   loop 1: modifies lsnState
